@@ -14,7 +14,10 @@ RULE = (
     "members), replaced or skipped and both the resulting tree (against the same edit applied "
     "directly on a second parse) and the event counts are compared; chains of 2-4 recording "
     "visitors, a generated DispatchingVisitor subclass and the three ast_transforms visitors are "
-    "run the same way. Non-trivial = distinct (text, mode) with >= 10 nodes or any edit/skip/chain case."
+    "run the same way. "
+    "Chains contain chains, a chain is reused after its visitors attribute was reassigned, and "
+    "the base DispatchingVisitor is sometimes used before the recording subclass.  "
+    "Non-trivial = distinct (text, mode) with >= 10 nodes or any edit/skip/chain case."
 )
 ASSUMPTIONS = ["source order of siblings is the order of their loc start offsets (parsed with locations)"]
 
